@@ -6,11 +6,14 @@ mod ext;
 mod ext2;
 mod ext3;
 mod ext4;
+mod ext_c13;
+mod ext_c18;
 mod enc;
 mod gen;
 mod interp;
 mod props;
 mod props2;
+mod props_set;
 mod proto;
 mod rng;
 
